@@ -112,11 +112,11 @@ func (p *IdentityProvider) attributeQueryHandleFunc(w http.ResponseWriter, r *ht
 		signaturePostProvided(
 			func() *xml_dsig.SignatureType { return attrQuery.Signature },
 		),
-		verifyPostSignature(
-			func() string { return attrQueryRequest },
-			func() *serviceprovider.ServiceProvider { return sp },
-			func(errF error) { err = errF },
-		),
+		func() error {
+			// the query is not base64 encoded like the messages of the POST-binding, it is an element of the SOAP envelope
+			err = sp.ValidateAttributeQuerySignature(attrQueryRequest)
+			return err
+		},
 		func() {
 			http.Error(w, fmt.Errorf("failed to extract signature from request: %w", err).Error(), http.StatusInternalServerError)
 		},
